@@ -114,47 +114,96 @@ Theorem C08_to_choi_of_operator :
 Proof. exact to_choi_oper_entries. Qed.
 Print Assumptions C08_to_choi_of_operator.
 
-(* labels of kraus_to_choi: [[out, in], [out, in]] - the operator's own dims *)
+(* labels of kraus_to_choi: [[in, out], [in, out]] - the operator's dims reversed,
+   the labels of to_choi *)
 Theorem C08_kraus_to_choi_labels :
   forall K0 Ks J, kraus_to_choi (K0 :: Ks) = Ok J ->
-    s_dims J = ((o_dl K0, o_dr K0), (o_dl K0, o_dr K0)) /\ s_rep J = Choi.
+    s_dims J = ((o_dr K0, o_dl K0), (o_dr K0, o_dl K0)) /\ s_rep J = Choi.
 Proof. exact kraus_labels. Qed.
 Print Assumptions C08_kraus_to_choi_labels.
 
-(* ---- the property fails here on the current code ------------------------
-   Full statement (dims-label part of C08):
-     forall A, to_choi (QOper A) = Ok J -> kraus_to_choi [A] = Ok Jk ->
-       s_dims Jk = s_dims J /\ istp (QSuper Jk) = istp (QSuper J).
-   It holds when o_dl A = o_dr A (the two theorems above) and is refuted for
-   a rectangular isometry: same matrix, other labels, other istp verdict. *)
-Definition iso_2_4 : oper :=
-  mkO 4 2 [2; 2] [2] [(1,0);(0,0); (0,0);(0,0); (0,0);(0,0); (0,0);(1,0)]%Z.
-
-Theorem C08_kraus_choi_labels_refuted :
-  exists A J Jk,
-    to_choi (QOper A) = Ok J /\ kraus_to_choi [A] = Ok Jk /\
-    s_data Jk = s_data J /\ s_dims Jk <> s_dims J /\
-    istp (QSuper J) = Some true /\ istp (QSuper Jk) = Some false.
+(* dims-label part of C08, positive since the fix of kraus_to_choi:
+   kraus_to_choi [A] and to_choi A are one and the same object - data, labels
+   and tag - for every m x n operator, in particular rectangular ones; every
+   predicate of the model therefore gives one verdict on both. *)
+Theorem C08_kraus_choi_is_to_choi :
+  forall A J Jk,
+    o_dl A = [o_m A] -> o_dr A = [o_n A] -> 1 < o_m A -> 1 < o_n A ->
+    to_choi (QOper A) = Ok J -> kraus_to_choi [A] = Ok Jk ->
+    Jk = J /\ istp (QSuper Jk) = istp (QSuper J) /\ ishp (QSuper Jk) = ishp (QSuper J).
 Proof.
-  exists iso_2_4. eexists. eexists.
-  split; [vm_compute; reflexivity|]. split; [vm_compute; reflexivity|].
-  split; [reflexivity|]. split; [discriminate|]. split; vm_compute; reflexivity.
+  intros A J Jk Hdl Hdr Hm Hn HJ HK.
+  rewrite (kraus_single_eq_to_choi A J Jk Hdl Hdr Hm Hn HJ HK). repeat split.
 Qed.
-Print Assumptions C08_kraus_choi_labels_refuted.
+Print Assumptions C08_kraus_choi_is_to_choi.
 
-(* Full statement (predicate part of C08): istp gives the same verdict on the
-   chi representation as on the Choi representation.  Refuted: Qobj.istp
-   applies the partial-trace test to the chi matrix itself.  Witness: the
-   identity channel on one qubit (chi = diag(4,0,0,0)). *)
+(* the former counterexample: a rectangular isometry 2 -> 4 *)
+Definition iso_2_4 : oper :=
+  mkO 4 2 [4] [2] [(1,0);(0,0); (0,0);(0,0); (0,0);(0,0); (0,0);(1,0)]%Z.
+
+Example C08_nonvacuous_kraus_choi_is_to_choi :
+  exists J Jk, to_choi (QOper iso_2_4) = Ok J /\ kraus_to_choi [iso_2_4] = Ok Jk /\
+               istp (QSuper Jk) = Some true /\ s_dims Jk = (([2], [4]), ([2], [4])).
+Proof.
+  eexists. eexists. split; [vm_compute; reflexivity|]. split; [vm_compute; reflexivity|].
+  split; vm_compute; reflexivity.
+Qed.
+
+(* composite labels ([2] -> [2,2]) on the same witness *)
+Example C08_kraus_choi_composite_witness :
+  let V := mkO 4 2 [2; 2] [2] (o_data iso_2_4) in
+  exists J, to_choi (QOper V) = Ok J /\ kraus_to_choi [V] = Ok J /\ istp (QSuper J) = Some true.
+Proof. eexists. split; [vm_compute; reflexivity|]. split; vm_compute; reflexivity. Qed.
+
+(* predicate part of C08 for the chi representation.  Full statement:
+     forall J C, to_chi (QSuper J) = Ok C -> istp (QSuper C) = istp (QSuper J).
+   Proved here (partial): Qobj.istp now tests the Choi matrix that _chi_to_choi
+   rebuilds from a chi matrix (numerator B chi B^dag against shape[0] times the
+   identity); that this numerator is shape[0] * J for the Pauli basis of any
+   number of qubits is C08_chi_choi_roundtrips in Props/C08_alg.v (the link
+   between the list matrix `superpauli` and the Pauli strings of that theorem
+   is by correspondence, nq <= 3). *)
+Theorem C08_istp_chi_agrees_partial :
+  forall q, s_rep q = Chi ->
+    istp (QSuper q) = match chi_to_choi q with
+                      | Ok (J, N) => istp_sobj_scaled (gofnat N) J
+                      | _ => None
+                      end.
+Proof. intros q H. unfold istp. rewrite H. reflexivity. Qed.
+Print Assumptions C08_istp_chi_agrees_partial.
+
 Definition choi_identity_qubit : sobj GZ :=
   mkS [(1,0);(0,0);(0,0);(1,0); (0,0);(0,0);(0,0);(0,0);
        (0,0);(0,0);(0,0);(0,0); (1,0);(0,0);(0,0);(1,0)]%Z (([2], [2]), ([2], [2])) Choi.
 
-Theorem C08_istp_chi_refuted :
-  exists J C, to_chi (QSuper J) = Ok C /\ s_rep C = Chi /\
-    istp (QSuper J) = Some true /\ istp (QSuper C) = Some false.
+(* the former counterexample (identity channel, chi = diag(4,0,0,0)) and a
+   non-TP map: same verdict on both representations *)
+Example C08_istp_chi_witnesses :
+  (exists C, to_chi (QSuper choi_identity_qubit) = Ok C /\ s_rep C = Chi /\
+             istp (QSuper choi_identity_qubit) = Some true /\ istp (QSuper C) = Some true) /\
+  (let J := mkS [(1,0);(0,0);(0,0);(0,0); (0,0);(1,0);(0,0);(0,0);
+                 (0,0);(0,0);(0,0);(0,0); (0,0);(0,0);(0,0);(0,0)]%Z (([2], [2]), ([2], [2])) Choi in
+   exists C, to_chi (QSuper J) = Ok C /\
+             istp (QSuper J) = Some false /\ istp (QSuper C) = Some false).
 Proof.
-  exists choi_identity_qubit. eexists.
-  split; [vm_compute; reflexivity|]. split; [reflexivity|]. split; vm_compute; reflexivity.
+  split.
+  - eexists. split; [vm_compute; reflexivity|]. split; [reflexivity|]. split; vm_compute; reflexivity.
+  - eexists. split; [vm_compute; reflexivity|]. split; vm_compute; reflexivity.
 Qed.
-Print Assumptions C08_istp_chi_refuted.
+
+(* the flat list matrix built by _superpauli_basis (textbook basis since the fix:
+   columns vec P_k) is orthogonal and complete with constant 2^nq - finite
+   computation, bound in the statement; for every nq this is
+   C08_pauli_orthogonal_complete in Props/C08_alg.v on the Pauli strings
+   themselves, and the flat matrix is compared with the implementation for nq <= 3 *)
+Theorem C08_superpauli_flat_small :
+  forall nq, 1 <= nq <= 2 ->
+    let N := 4 ^ nq in
+    let B := superpauli nq in
+    let cI := mbuild N N (fun r c => if r =? c then gofnat (2 ^ nq) else g0) in
+    mmul N N N (madj N N B) B = cI /\ mmul N N N B (madj N N B) = cI.
+Proof.
+  intros nq [H1 H2]. assert (E : nq = 1 \/ nq = 2) by lia.
+  destruct E as [E|E]; subst nq; vm_compute; split; reflexivity.
+Qed.
+Print Assumptions C08_superpauli_flat_small.
